@@ -26,6 +26,21 @@
 #include <stddef.h>
 #include <stdint.h>
 
+/* Verification hook: a preemption point for the deterministic simulator.
+ * Compiles to nothing unless the library is built with -DTINYJAMBU_VERIF. */
+#if defined(TINYJAMBU_VERIF)
+#ifdef __cplusplus
+extern "C" {
+#endif
+void tinyjambu_verif_point(int site);
+#ifdef __cplusplus
+}
+#endif
+#define TINYJAMBU_VERIF_POINT(site) tinyjambu_verif_point((site))
+#else
+#define TINYJAMBU_VERIF_POINT(site) ((void)0)
+#endif
+
 /* Figure out how to inline functions using this C compiler */
 #if defined(__STDC__) && __STDC_VERSION__ >= 199901L
 #define STATIC_INLINE static inline
